@@ -31,8 +31,14 @@ except ImportError:
 try:
     from .lp import LPMixin
 
-    class Engine(LPMixin):  # noqa: F811
-        pass
+    try:
+        from .loops import LoopMixin as _LoopMixin
+
+        class Engine(LPMixin, _LoopMixin):  # noqa: F811  (LP layer + rule I; both derive from StmtMixin)
+            pass
+    except ImportError:
+        class Engine(LPMixin):  # noqa: F811
+            pass
 except ImportError:
     pass
 
